@@ -371,6 +371,13 @@ def filt_body(case):
         again = np.asarray(call(filter_thru, f1.copy(), waveimg=holder, **kwh), dtype='f8')
         fresh = np.asarray(call(filter_thru, f1.copy(), waveimg=w2.copy(), **kwh), dtype='f8')
         holder_kind = 'wavelength image'
+    if case['wset']:
+        # round 12: the trace set is documented as the wavelength solution "if waveimg is not specified": with both handed over the image counts
+        both = np.asarray(call(filter_thru, f1.copy(), waveimg=w2.copy(), wset=kw['wset'], **kwh), dtype='f8')
+        alone = np.asarray(call(filter_thru, f1.copy(), waveimg=w2.copy(), **kwh), dtype='f8')
+        with judge('waveimg-and-wset'):
+            check(both.shape == alone.shape and bool(np.all(np.abs(both - alone) <= 1e-9 * max(1.0, np.abs(alone).max()))), 'filter:trace-set-overrides-the-wavelength-image',
+                  lambda: dict(maxdev=float(np.abs(both - alone).max())))
     with judge('refilled-solution'):
         check(again.shape == fresh.shape and bool(np.all(np.abs(again - fresh) <= 1e-9 * max(1.0, np.abs(fresh).max()))), 'filter:stale-answer-after-the-wavelength-solution-was-refilled-in-place',
               lambda: dict(holder=holder_kind, maxdev=float(np.abs(again - fresh).max()), again=again.tolist()[:2], fresh=fresh.tolist()[:2]))
